@@ -10,7 +10,12 @@ import cfgprop
 import spine
 
 MODULE = "ProbLogProofs.Properties.C08"
-THEOREMS = ["ProbLogProofs.C08.C08_spec_base"]
+THEOREMS = [
+    "ProbLogProofs.C08.C08_run_eq_sums",
+    "ProbLogProofs.C08.C08_queries_pointwise",
+    "ProbLogProofs.C08.C08_restrict_irrelevant",
+    "ProbLogProofs.C08.C08_query_independent",
+]
 
 MANIFEST = {
     "level": "other",
